@@ -5,6 +5,7 @@ LEVEL = "exploration"
 
 
 def run(c):
+    c.prove(["Properties_C07.v"])      # the model-level part of the contract (see the file header); the run-time part follows
     q = c.tier == "quick"
     session_check.run_sessions(c, (sessions.RS28, sessions.RS2M, sessions.LDPC), {"C07"}, 500 if q else 6000, 700 if q else 10000, big=True)
     c.cov["explanation"] = ("every life cycle runs under ASan/UBSan with every application buffer (symbols of exactly L bytes, pointer tables of exactly n resp. k entries) "
